@@ -265,9 +265,9 @@ func c14baseConfigs(L, S int, e common.Env) []c14cfg {
 		{Name: "recv T || Send T || recv U || Send U", Threads: [][]string{{"r:T:7:t1"}, {"s:T"}, {"r:U:7:u1"}, {"s:U"}}, Limit: L, Samples: S},
 		{Name: "t0 buffered; recv t1,u1 || Send T,Send U", Pre: []string{"r:T:7:t0"}, Threads: [][]string{{"r:T:7:t1", "r:U:7:u1"}, {"s:T", "s:U"}}, Limit: L, Samples: S},
 		// the epoch clock ticks while a receive / a first Send holds the box lock and a Send on another topic is about to collect
-		{Name: "clock: recv T,Send T || Send U || tick", Ticks: true, Pre: []string{"s:Z", "k"}, Threads: [][]string{{"r:T:7:m1", "s:T"}, {"s:U"}, {"k"}}, Limit: L, Samples: S},
-		{Name: "clock: Send T,recv T || Send U || tick", Ticks: true, Pre: []string{"s:Z", "k"}, Threads: [][]string{{"s:T", "r:T:7:m1"}, {"s:U"}, {"k"}}, Limit: L, Samples: S},
-		{Name: "clock: m0 buffered; recv T,Send T || Send U,Send V || tick,tick", Ticks: true, Pre: []string{"s:Z", "k", "r:T:7:m0"}, Threads: [][]string{{"r:T:7:m1", "s:T"}, {"s:U", "s:V"}, {"k", "k"}}, Limit: L, Samples: S},
+		{Name: "clock: recv T,Send T || Send U || tick", Ticks: true, Pre: []string{"s:Z", "k"}, Threads: [][]string{{"r:T:7:m1", "s:T"}, {"s:U"}, {"k"}}, Limit: min(L, 60000), Samples: min(S, 4000)},
+		{Name: "clock: Send T,recv T || Send U || tick", Ticks: true, Pre: []string{"s:Z", "k"}, Threads: [][]string{{"s:T", "r:T:7:m1"}, {"s:U"}, {"k"}}, Limit: min(L, 60000), Samples: min(S, 4000)},
+		{Name: "clock: m0 buffered; recv T,Send T || Send U,Send V || tick,tick", Ticks: true, Pre: []string{"s:Z", "k", "r:T:7:m0"}, Threads: [][]string{{"r:T:7:m1", "s:T"}, {"s:U", "s:V"}, {"k", "k"}}, Limit: min(L, 60000), Samples: min(S, 4000)},
 		// a topic on which the local party keeps sending in every epoch never idles: it must stay started far beyond the expiry
 		// (3 idle epochs here), so a message received for it after 10 epochs is forwarded at once (there is no later Send)
 		{Name: "m0,m1 buffered; recv m2,m3 || Send || recv y1", Pre: []string{"r:T:7:m0", "r:T:7:m1"}, Threads: [][]string{{"r:T:7:m2", "r:T:7:m3"}, {"s:T"}, {"r:T:8:y1"}}, Limit: e.Pick(2000, 400000), Samples: S},
